@@ -49,7 +49,7 @@ def gen_enum(r, used):
         r.shuffle(vals)
         key = tuple(sorted(strs))
         # C13 F-C13-1: the generator identifies inline enums by their STRING values only; stay clear of it
-        if key in used and used[key] != vals:
+        if key in used and json.dumps(used[key]) != json.dumps(vals):      # (python: True == 1, so compare the JSON texts)
             continue
         used[key] = vals
         return {"k": "enum", "vals": vals, "ref": r.random() < 0.4}
@@ -243,6 +243,21 @@ def spec_of(schema):
             raise ValueError("layer names")
         comps.update(extra)
     comps["T"] = t
+    # C13 F-C13-1: the generator identifies enums by their STRING values only; two different enums with one such key share a
+    # type. The tree generator stays clear of it (gen_enum); a document the SHRINKER walks into must be refused as well
+    keys = {}
+    def enums(v):
+        if isinstance(v, dict):
+            if isinstance(v.get("enum"), list):
+                k = tuple(sorted(x for x in v["enum"] if isinstance(x, str)))
+                if json.dumps(keys.setdefault(k, v["enum"])) != json.dumps(v["enum"]):     # (python: True == 1)
+                    raise ValueError("two different enums with the same string values (C13 F-C13-1)")
+            for x in v.values():
+                enums(x)
+        elif isinstance(v, list):
+            for x in v:
+                enums(x)
+    enums(comps)
     spec = {"openapi": "3.1.0", "info": {"title": "t", "version": "1"}, "paths": {}, "components": {"schemas": comps}}
     root = {"$schema": "https://json-schema.org/draft/2020-12/schema", "$ref": "#/components/schemas/T", "components": {"schemas": comps}}
     return spec, root
